@@ -22,6 +22,11 @@ Static rules (DESIGN.md §C02, engine sa/tabchain.py):
                 abstractly: counters, `if (has_vj)` guards, struct fields) is the output position at which
                 generate_atc_integrals_all places the integrals of contribution k; ids without an arm
                 need an else or a calloc'ed array; the version-j block is 0
+ inverse-pair   NLDFSplinePlan: the factor that lays the spline knots on the exponent ladder in _run_setup times the
+                factor get_a2q_fast applies to the ladder index is 1 (ratios compared as rational functions of
+                nalpha, spline_size); index and derivative are scaled alike; the clip bound is the last knot;
+                cider_ind_etb / cider_ind_zexp applied to get_q2a(q) give back q (python formula substituted into
+                the C function, one logarithm law: log(b**e) = e log b)
  delegate-forward  a function of settings.py / plans.py that delegates to a same-module function forwards
                 every parameter the two share, unless it uses it itself (get_cider_exponent_gga -> nspin)
  alpha-degree   units-of-measure: degree (in exponent units) of each integral relative to the `se`
@@ -1017,6 +1022,204 @@ def _eq_strs(t, var):
 
 
 # ----------------------------------------------------------------------------------------------
+# inverse pairs: exponent <-> ladder index <-> spline knot index
+# ----------------------------------------------------------------------------------------------
+SPLINE_CLASS = "NLDFSplinePlan"
+C_IND_FILE = C_COEFS
+
+
+def _formula_branches(fn, attr="alpha_formula"):
+    """`if self.<attr> == "k": A  [elif ...]  else: B` at the top level of fn -> [(key|'else', [stmts])]"""
+    for st in fn.body:
+        if isinstance(st, ast.If) and isinstance(st.test, ast.Compare) and pf.is_self_attr(st.test.left, attr) \
+                and len(st.test.ops) == 1 and isinstance(st.test.ops[0], ast.Eq) \
+                and isinstance(st.test.comparators[0], ast.Constant):
+            out, cur = [], st
+            while True:
+                out.append((cur.test.comparators[0].value, cur.body))
+                if len(cur.orelse) == 1 and isinstance(cur.orelse[0], ast.If) and isinstance(cur.orelse[0].test, ast.Compare) \
+                        and pf.is_self_attr(cur.orelse[0].test.left, attr):
+                    cur = cur.orelse[0]
+                    continue
+                if cur.orelse:
+                    out.append(("else", cur.orelse))
+                return out
+    return None
+
+
+def rule_inverse_pairs(chk, tus):
+    prog = pf.Program(chk.tree, [PLANS])
+    mod = prog.module(PLANS)
+    cls = mod.cls(SPLINE_CLASS)
+    setup = prog.find_method(mod, cls, "_run_setup")
+    a2q = prog.find_method(mod, cls, "get_a2q_fast")
+    q2a = prog.find_method(mod, cls, "get_q2a")
+    if not (setup and a2q and q2a):
+        raise core.AnalysisError("%s: _run_setup / get_a2q_fast / get_q2a not found" % SPLINE_CLASS)
+    setup, a2q, q2a = setup[2], a2q[2], q2a[2]
+    # ---- 1. knot layout  <->  index scaling -------------------------------------------------------
+    K = Poly.atom(("sym", "<knot index>"))
+    names, count = {}, None
+    for n in pf.walk_no_nested(setup):
+        if isinstance(n, ast.Assign) and len(n.targets) == 1 and isinstance(n.targets[0], ast.Name):
+            v = n.value
+            while isinstance(v, ast.Call) and isinstance(v.func, ast.Attribute) and v.func.attr in ("astype", "copy"):
+                v = v.func.value
+            cn = (pf.call_name(v) or "").split(".")[-1] if isinstance(v, ast.Call) else None
+            pp0 = tc.PyPoly(setup, factor_sums=True)
+            if cn == "arange" and 1 <= len(v.args) <= 2:
+                lo = pp0.poly(v.args[0]) if len(v.args) == 2 else Poly()
+                if lo == Poly():
+                    names[n.targets[0].id] = K
+                    count = pp0.poly(v.args[-1])
+            elif cn == "linspace" and len(v.args) == 3 and pp0.poly(v.args[0]) == Poly():
+                count = pp0.poly(v.args[2])
+                names[n.targets[0].id] = pp0.ev.mul(K, pp0.ev.mul(pp0.poly(v.args[1]), pp0.ev.inv(count - Poly.const(1))))
+    if not names or count is None:
+        raise core.AnalysisError("%s._run_setup: the array of knot indices (np.arange / np.linspace) was not found" % SPLINE_CLASS)
+    pp = tc.PyPoly(setup, names, factor_sums=True)
+    f1s = []
+    for n in pf.walk_no_nested(setup):
+        if isinstance(n, ast.Call) and isinstance(n.func, ast.Attribute) and n.func.attr == "get_q2a" and n.args:
+            e = pp.poly(n.args[0])
+            if K.atoms() <= e.atoms():
+                f1s.append((e, n))
+    if len(f1s) != 1:
+        raise core.AnalysisError("%s._run_setup: expected one get_q2a(<knot index> * scale) call, found %d" % (SPLINE_CLASS, len(f1s)))
+    e, node1 = f1s[0]
+    f1 = pp.ev.mul(e, pp.ev.inv(K))
+    if K.atoms() & f1.atoms():
+        raise core.AnalysisError("%s._run_setup: ladder index of a knot is not proportional to the knot index: %s" % (SPLINE_CLASS, e.text()))
+    # the C call in get_a2q_fast and its output arrays
+    ccall, cfuncs = None, {}
+    br = _formula_branches(a2q)
+    for n in pf.walk_no_nested(a2q):
+        if isinstance(n, ast.Call) and isinstance(n.func, ast.Name):
+            tgt = {}
+            for key, body in (br or []):
+                for st in body:
+                    if isinstance(st, ast.Assign) and len(st.targets) == 1 and isinstance(st.targets[0], ast.Name) \
+                            and st.targets[0].id == n.func.id and _lib_func(st.value):
+                        tgt[key] = _lib_func(st.value)
+            if tgt:
+                ccall, cfuncs = n, tgt
+    if ccall is None:
+        raise core.AnalysisError("%s.get_a2q_fast: the `fn = libcider.cider_ind_*` dispatch on alpha_formula was not found" % SPLINE_CLASS)
+
+    def arr_name(a):
+        x = a
+        while isinstance(x, (ast.Call, ast.Attribute)):
+            x = x.func if isinstance(x, ast.Call) else x.value
+        return x.id if isinstance(x, ast.Name) else None
+
+    outs = [arr_name(a) for a in ccall.args[:2]]
+    inp = [a.arg for a in a2q.args.args if a.arg != "self"]
+    if None in outs or not inp:
+        raise core.AnalysisError("%s.get_a2q_fast: output arrays of the index routine not recognised" % SPLINE_CLASS)
+    pa = tc.PyPoly(a2q, factor_sums=True)
+    fac = {outs[0]: Poly.const(1), outs[1]: Poly.const(1)}
+    fnode = {}
+    for n in pf.walk_no_nested(a2q):
+        if isinstance(n, ast.AugAssign) and pf.base_name(n.target) in fac:
+            nm = pf.base_name(n.target)
+            v = pa.poly(n.value)
+            if isinstance(n.op, ast.Mult):
+                fac[nm] = pa.ev.mul(fac[nm], v)
+            elif isinstance(n.op, ast.Div):
+                fac[nm] = pa.ev.mul(fac[nm], pa.ev.inv(v))
+            else:
+                raise core.AnalysisError("%s.get_a2q_fast: %s is shifted, not scaled" % (SPLINE_CLASS, nm))
+            fnode[nm] = n
+    f2, f2d = fac[outs[0]], fac[outs[1]]
+    inst = "knot layout %s  x  index scaling %s" % (f1.text(), f2.text())
+    loc_node = fnode.get(outs[0], a2q)
+    if pa.ev.mul(f1, f2) == Poly.const(1):
+        chk.ok("inverse-pair", inst)
+    else:
+        chk.violation("inverse-pair", PLANS, "%s.get_a2q_fast" % SPLINE_CLASS,
+                      pf.src(loc_node)[:120] if outs[0] in fnode else "%s is not rescaled" % outs[0], loc_node.lineno,
+                      "_run_setup places knot k at ladder index k * %s (`%s`), so a ladder index must be multiplied by the "
+                      "reciprocal to give a knot index; get_a2q_fast multiplies by %s (product %s, must be 1)" % (
+                          f1.text(), pf.src(node1)[:80], f2.text(), pa.ev.mul(f1, f2).text()), instance=inst)
+    inst = "index and its derivative scaled alike (%s)" % f2.text()
+    if f2 == f2d:
+        chk.ok("inverse-pair", inst)
+    else:
+        n_ = fnode.get(outs[1], a2q)
+        chk.violation("inverse-pair", PLANS, "%s.get_a2q_fast" % SPLINE_CLASS,
+                      pf.src(n_)[:120] if outs[1] in fnode else "%s is not rescaled" % outs[1], n_.lineno,
+                      "the knot index is scaled by %s but its derivative with respect to the exponent by %s" % (
+                          f2.text(), f2d.text()), instance=inst)
+    # clip bound = last knot index
+    clips = [n for n in pf.walk_no_nested(a2q) if isinstance(n, ast.Call) and _lib_func(n.func) and "clip" in _lib_func(n.func)]
+    for cl in clips:
+        ints = [a.args[0] for a in cl.args if isinstance(a, ast.Call) and (pf.call_name(a) or "").endswith("c_int") and a.args]
+        if len(ints) < 1:
+            raise core.AnalysisError("%s.get_a2q_fast: upper bound of the clip not recognised" % SPLINE_CLASS)
+        bound = pa.poly(ints[0])
+        inst = "clip bound %s == knot count - 1" % bound.text()
+        if bound == count - Poly.const(1):
+            chk.ok("inverse-pair", inst)
+        else:
+            chk.violation("inverse-pair", PLANS, "%s.get_a2q_fast" % SPLINE_CLASS, pf.src(cl)[:120], cl.lineno,
+                          "knot indices run from 0 to %s (there are %s knots) but the index is clipped to %s" % (
+                              (count - Poly.const(1)).text(), count.text(), bound.text()), instance=inst)
+    # ---- 2. q -> alpha (python)  o  alpha -> q (C)  ==  identity ----------------------------------
+    qb = _formula_branches(q2a)
+    if not qb:
+        raise core.AnalysisError("get_q2a: no dispatch on self.alpha_formula")
+    qparam = [a.arg for a in q2a.args.args if a.arg != "self"][0]
+    q = Poly.atom(("sym", "<q>"))
+    tu = tus[C_IND_FILE]
+    for key, body in qb:
+        if key not in cfuncs:
+            raise core.AnalysisError("get_q2a has a branch %r that get_a2q_fast does not dispatch on" % (key,))
+        rets = [x for st in body for x in ast.walk(st) if isinstance(x, ast.Return)]
+        if len(rets) != 1:
+            raise core.AnalysisError("get_q2a[%s]: expected one return" % key)
+        val = rets[0].value
+        if isinstance(val, ast.Name):
+            defs = [st.value for st in body if isinstance(st, ast.Assign) and len(st.targets) == 1
+                    and isinstance(st.targets[0], ast.Name) and st.targets[0].id == val.id]
+            if len(defs) != 1:
+                raise core.AnalysisError("get_q2a[%s]: %s has no single definition" % (key, val.id))
+            val = defs[0]
+        pq = tc.PyPoly(None, {qparam: q}).poly(val)
+        cname = cfuncs[key]
+        ps = tu.params(cname)
+        if len(ps) != len(ccall.args):
+            raise core.AnalysisError("%s takes %d parameters, python passes %d" % (cname, len(ps), len(ccall.args)))
+        roles = {}
+        for i, (p_, a) in enumerate(zip(ps, ccall.args)):
+            nm = arr_name(a)
+            if isinstance(a, ast.Call) and (pf.call_name(a) or "").endswith(("c_double", "c_int")) and a.args \
+                    and pf.is_self_attr(a.args[0]):
+                roles[p_["id"]] = a.args[0].attr.lstrip("_")
+            elif nm == inp[0]:
+                roles[p_["id"]] = "EXPNT"
+            elif nm in outs:
+                roles[p_["id"]] = "OUT%d" % outs.index(nm)
+            else:
+                roles[p_["id"]] = "arg%d" % i
+        ev = tc.Ev(tu)
+        ev.inline_calls = True
+        env = tc.new_env(roles)
+        env["elem_values"] = {"EXPNT": pq}
+        ev.block(tu.body(cname), env)
+        got = [st["value"] for st in env["stores"] if st["root"] == "OUT0"]
+        inst = "alpha_formula %r: %s(q -> %s) == q" % (key, cname, pq.text())
+        if not got:
+            raise core.AnalysisError("%s stores nothing into its first array" % cname)
+        if got[-1] == q:
+            chk.ok("inverse-pair", inst)
+        else:
+            chk.violation("inverse-pair", cfacts.LIB + "/" + C_IND_FILE, cname, "index of alpha(q)", tu.line_of(tu.func(cname)),
+                          "get_q2a[%s] builds the exponent ladder as alpha(q) = %s, but %s maps that exponent to the index %s "
+                          "instead of q: exponents are interpolated at the wrong place of the ladder" % (
+                              key, pq.text(), cname, got[-1].text()[:160]), instance=inst)
+
+
+# ----------------------------------------------------------------------------------------------
 # delegation: a wrapper forwards the parameters it shares with the function it delegates to
 # ----------------------------------------------------------------------------------------------
 DELEGATE_FILES = [SETTINGS, PLANS]
@@ -1098,6 +1301,8 @@ def _analyse_own(chk):
     chk.rule("alpha-degree", "units of measure of the C kernels == SPEC_USPS")
     chk.rule("delegate-forward", "a function that delegates to a same-module function forwards the parameters they share "
                                  "(or uses them itself)")
+    chk.rule("inverse-pair", "forward and inverse maps between exponent, ladder index and spline knot index compose to the "
+                             "identity (knot layout x index scaling = 1; cider_ind_*(get_q2a(q)) = q; clip bound = last knot)")
     chk.rule("totality", "allowed specs have ids, USPs, contributions, C cases/arms, ueg branches")
     py = PyTables(chk.tree)
     tus = cfacts.load_all(chk.tree, [C_COEFS, C_CONV], jobs=2)
@@ -1122,6 +1327,8 @@ def _analyse_own(chk):
     chk.guard(_t)
     chk.guard(rule_ueg, py)
     chk.guard(rule_delegate_forward)
+    chk.guard(rule_inverse_pairs, tus)
+    chk.floor("inverse-pair", 3, "spline scale, derivative scale, clip bound, etb and zexp ladders (5 today)")
     chk.floor("chain-j", 8, "4 j specs + 4 k specs (alias) x 2 layouts, minus nothing; 16 today")
     chk.floor("chain-j-twin", 2, "4 case values")
     chk.floor("chain-i", 5, "6 scalar specs + 2 vector specs x 2 parts")
@@ -1154,7 +1361,7 @@ def _analyse_own(chk):
 
 def analyse(chk):
     _analyse_own(chk)
-    chk.guard(lambda c_: core.include_findings(c_, 'C05', files=['ciderpress/dft/lcao_nldf_generator.py', 'ciderpress/dft/lcao_interpolation.py', 'ciderpress/dft/lcao_convolutions.py'], rules=['py-zeroinit'],
+    chk.guard(lambda c_: core.include_findings(c_, 'C05', files=['ciderpress/dft/lcao_nldf_generator.py', 'ciderpress/dft/lcao_interpolation.py', 'ciderpress/dft/lcao_convolutions.py', 'ciderpress/lib/mod_cider/'], rules=['py-zeroinit', 'c-scratch-layout'],
                                                why='accumulate-only native outputs need a zeroed buffer, otherwise features contain the previous call\'s results'))
     chk.guard(lambda c_: core.include_findings(c_, 'C10', files=['ciderpress/lib/mod_cider/cider_coefs.c', 'ciderpress/lib/mod_cider/convolutions.c', 'ciderpress/lib/mod_cider/conv_interpolation.c', 'ciderpress/lib/mod_cider/fast_sdmx.c', 'ciderpress/lib/mod_cider/sph_harm.c'], rules=None,
                                                why='a data race in the anchored feature kernels makes the features schedule dependent'))
@@ -1209,6 +1416,20 @@ def mutants(tree):
         Mutant("version-j orders initialised to 1", F_CONV, "        for (ia = 0; ia < nalpha; ia++) {\n            ccl->feat_orders[offset] = 0;",
                "        for (ia = 0; ia < nalpha; ia++) {\n            ccl->feat_orders[offset] = 1;", expect="feat-orders"),
         Mutant("gga exponent delegates without nspin", SETTINGS, fn=_gga_delegates, expect="delegate-forward"),
+        Mutant("knot-index scaling off by one", PLANS, "di[:] *= (self._spline_size - 1) / (self.nalpha - 1)",
+               "di[:] *= self._spline_size / self.nalpha", expect="inverse-pair"),
+        Mutant("knot layout off by one", PLANS, "interp_indexes * (self.nalpha - 1) / (self._spline_size - 1)",
+               "interp_indexes * self.nalpha / self._spline_size", expect="inverse-pair"),
+        Mutant("derivative of the knot index not rescaled", PLANS, "            derivi[:] *= (self._spline_size - 1) / (self.nalpha - 1)\n", "",
+               expect="inverse-pair"),
+        Mutant("clip bound is the knot count", PLANS, "ctypes.c_int(self._spline_size - 1),\n            ctypes.c_int(exp_g.size),",
+               "ctypes.c_int(self._spline_size),\n            ctypes.c_int(exp_g.size),", expect="inverse-pair"),
+        Mutant("etb ladder starts one step up", PLANS, "return self.alpha0 * self.lambd**q", "return self.alpha0 * self.lambd ** (q + 1)",
+               expect="inverse-pair"),
+        Mutant("zexp index drops the +1", F_COEFS, "di_g[g] = log(exp_g[g] * inva + 1) * ratio;", "di_g[g] = log(exp_g[g] * inva) * ratio;",
+               expect="inverse-pair"),
+        Mutant("etb index uses lambd instead of log(lambd)", F_COEFS, "double ratio = 1.0 / log(lambd);", "double ratio = 1.0 / lambd;",
+               expect="inverse-pair"),
     ]
 
 
